@@ -25,6 +25,14 @@ use crate::error::Error;
 use super::{ExprType, FlagsState, GeneratorState};
 
 impl<'a> GeneratorState<'a> {
+    // A register has just been stored to memory: N/Z are unchanged, so they can't be those of
+    // the memory cell any more if the flags were believed to reflect it
+    fn forget_flags_of_memory(&mut self) {
+        if !matches!(self.flags, FlagsState::X | FlagsState::Y | FlagsState::A) {
+            self.flags = FlagsState::Unknown;
+        }
+    }
+
     pub(crate) fn generate_assign(
         &mut self,
         left: &ExprType,
@@ -196,11 +204,7 @@ impl<'a> GeneratorState<'a> {
                         self.carry_flag_ok = false;
                         Ok(ExprType::Y)
                     }
-                    ExprType::Y => {
-                        self.flags = FlagsState::Y;
-                        self.carry_flag_ok = false;
-                        Ok(ExprType::Y)
-                    }
+                    ExprType::Y => Ok(ExprType::Y),
                     ExprType::Nothing => Err(self
                         .compiler_state
                         .syntax_error("Can't assign void to variable", pos)),
@@ -213,6 +217,7 @@ impl<'a> GeneratorState<'a> {
                         match left {
                             ExprType::Absolute(_, _, _) => {
                                 self.asm(STX, left, pos, high_byte)?;
+                                self.forget_flags_of_memory();
                                 /*
                                 if !eight_bits {
                                     if *offset == 0 {
@@ -252,6 +257,7 @@ impl<'a> GeneratorState<'a> {
                                     && v.var_type != VariableType::CharPtr
                                 {
                                     self.asm(STX, left, pos, high_byte)?;
+                                    self.forget_flags_of_memory();
                                 } else {
                                     if self.acc_in_use {
                                         self.sasm(PHA)?;
@@ -297,6 +303,7 @@ impl<'a> GeneratorState<'a> {
                         match left {
                             ExprType::Absolute(_, _, _) => {
                                 self.asm(STY, left, pos, high_byte)?;
+                                self.forget_flags_of_memory();
                                 /*
                                 if !eight_bits {
                                     if *offset == 0 {
@@ -334,6 +341,7 @@ impl<'a> GeneratorState<'a> {
                                 let v = self.compiler_state.get_variable(variable);
                                 if v.memory == VariableMemory::Zeropage {
                                     self.asm(STY, left, pos, high_byte)?;
+                                    self.forget_flags_of_memory();
                                 } else {
                                     if self.acc_in_use {
                                         self.sasm(PHA)?;
